@@ -247,4 +247,7 @@ for _k, _fs in {"C07": ["Vanilla"], "C08": ["Tbc"], "C09": ["WrathClient", "Wrat
                 "C11": ["Vanilla", "Tbc", "WrathClient", "WrathServer"], "C12": ["Vanilla", "Tbc", "WrathClient", "WrathServer"],
                 "C14": ["Vanilla", "Tbc", "WrathClient", "WrathServer"]}.items():
     PROPS[_k]["extra_files"] = PROPS[_k]["extra_files"] + ["proofs/delegations/%s.v" % f for f in _fs]
+# bridge one-liners between keys / prime / generator / k / error kinds and the big-integer shim (proofs/delegations/Bridges.v)
+for _k in ("C01", "C02", "C03", "C04", "C05", "C06", "C14", "C19"):
+    PROPS[_k]["extra_files"] = PROPS[_k]["extra_files"] + ["proofs/delegations/Bridges.v"]
 
